@@ -11,5 +11,4 @@ CONSTANT ShapeD = {1, 3, 8, 17, 24, 64, 130}
 CONSTANT Tighten = 0
 INVARIANT LayoutValid
 INVARIANT CandidatesLegal
-INVARIANT Slack
 CHECK_DEADLOCK FALSE
